@@ -365,6 +365,39 @@ fn case_variant_battery(log: &mut Vec<String>) {
   }
 }
 
+/// A reference may carry a path or query besides DID and fragment (`did:x?versionId=1#a`); queries match it by DID + fragment, so an
+/// embedded method with that DID and fragment would be shadowed by / alias it: its insertion is refused and leaves the document as
+/// it was, in every relationship; a general-purpose insertion (which the reference then points at) is allowed.
+fn query_reference_battery(log: &mut Vec<String>) {
+  let did = "did:example:doc";
+  let keys = ["authentication", "assertionMethod", "keyAgreement", "capabilityDelegation", "capabilityInvocation"];
+  for (ri, key) in keys.iter().enumerate() {
+    for reference in [format!("{did}?versionId=1#a"), format!("{did}/path#a"), format!("{did}/p?q=1#a")] {
+      let text = serde_json::json!({"id": did, *key: [reference]}).to_string();
+      let Ok(d0) = CoreDocument::from_json(&text) else {
+        continue; // a reference form the gate itself refuses: nothing to observe
+      };
+      for (si, rel) in RELS.iter().enumerate() {
+        let mut d = d0.clone();
+        let m = VerificationMethod::new_from_jwk(CoreDID::parse(did).unwrap(), method_key(did, "#a"), Some("#a")).unwrap();
+        let before = d.to_json().unwrap();
+        match d.insert_method(m, MethodScope::VerificationRelationship(*rel)) {
+          Ok(()) => {
+            let found = d.resolve_method(format!("{did}#a").as_str(), None).is_some();
+            log.push(format!("[query-reference] {key} holds {reference:?}: an embedded method {did}#a was accepted into relationship #{si}{}", if found { "" } else { " and does not resolve" }));
+          }
+          Err(_) => {
+            if d.to_json().unwrap() != before {
+              log.push(format!("[query-reference] refused insertion changed the document ({key}, {reference:?})"));
+            }
+          }
+        }
+      }
+      let _ = ri;
+    }
+  }
+}
+
 fn tag(op: Op) -> &'static str {
   match op {
     Op::InsertMethod(..) => "[insert]",
@@ -402,6 +435,7 @@ pub fn document_ops(cex: &Value) -> Result<String, String> {
     universes.push((2, 5, 1, vec![Op::Dangling(0, 2), Op::Dangling(1, 4)]));
     gate_battery(&mut log);
     case_variant_battery(&mut log);
+    query_reference_battery(&mut log);
     for (n_ids, n_rels, depth, prefix) in universes {
     let mut ops = Vec::new();
     for i in 0..n_ids {
